@@ -248,6 +248,95 @@ fn vmess_forged_sizes(s: &mut Session, cr: &mut Crafter, rng: &mut Rng, thorough
     }
 }
 
+/// VMess request headers that are *authentic* (sealed under a registered user's key by the Spec-side crafter, fresh
+/// auth id) but whose instruction is cut at every length, or whose address type / command / padding nibble / domain
+/// length is inconsistent with what follows — with the trailing FNV-1a checksum recomputed so that the parse runs to
+/// the inconsistency.  None may panic; the model must report the same outcome.
+fn fnv1a32(d: &[u8]) -> u32 {
+    d.iter().fold(2166136261u32, |h, b| (h ^ *b as u32).wrapping_mul(16777619))
+}
+
+fn vmess_malformed_headers(s: &mut Session, cr: &mut Crafter, rng: &mut Rng, thorough: bool) {
+    let addrs = ["4:01020304:80".to_owned(), "6:20010db8000000000000000000000007:443".to_owned(), format!("d:{}:8080", hex(b"example.org")), random_addr(rng)];
+    for (ai, addr) in addrs.iter().enumerate() {
+        s.begin_case(&format!("vmess-server:malformed-header:{}", ai));
+        let uuid = random_uuid(rng);
+        let vm_target = unhex(s.run(&format!("addr.enc vm {}", addr)).strip_prefix("ok ").unwrap_or("-")).unwrap_or_default();
+        let (iv, key16) = (rng.bytes(16), rng.bytes(16));
+        let padding = rng.bytes([0usize, 3, 15, 7][ai % 4]);
+        let instr = crate::c03::spec(s, cr, &format!("craft.vm.instr iv={} key={} v=1 opt=29 padsec={} cmd={} pta={} padding={}", hex(&iv), hex(&key16), padding.len() * 16 + 3, 1 + ai % 2 * 2, hex(&vm_target), if padding.is_empty() { "-".to_owned() } else { hex(&padding) }));
+        let Some(instr) = unhex(&instr) else {
+            s.oracle_fail("craft", "spec builder unavailable");
+            return;
+        };
+        let refix = |mut v: Vec<u8>| -> Vec<u8> {
+            if v.len() >= 4 {
+                let n = v.len() - 4;
+                let f = fnv1a32(&v[..n]).to_be_bytes();
+                v[n..].copy_from_slice(&f);
+            }
+            v
+        };
+        let mut variants: Vec<Vec<u8>> = vec![instr.clone()];
+        let step = if thorough { 1 } else { 1 };
+        for l in (0..instr.len()).step_by(step) {
+            variants.push(instr[..l].to_vec());
+            variants.push(refix(instr[..l].to_vec()));
+        }
+        for t in [0u8, 1, 2, 3, 4, 5, 0x7f, 0xff] {
+            let mut v = instr.clone();
+            v[40] = t;
+            variants.push(refix(v));
+        }
+        for c in [0u8, 2, 3, 4, 0xff] {
+            let mut v = instr.clone();
+            v[37] = c;
+            variants.push(refix(v));
+        }
+        for p in 0..16u8 {
+            let mut v = instr.clone();
+            v[35] = (p << 4) | (v[35] & 0xf);
+            variants.push(refix(v));
+        }
+        for sec in [0u8, 1, 2, 5, 6, 0xf] {
+            let mut v = instr.clone();
+            v[35] = (v[35] & 0xf0) | sec;
+            variants.push(refix(v));
+        }
+        if instr[40] == 2 {
+            for dl in [0u8, 1, 2, 200, 255] {
+                let mut v = instr.clone();
+                v[41] = dl;
+                variants.push(refix(v.clone()));
+                // and with as many bytes as the length byte asks for
+                let mut w = v[..42].to_vec();
+                w.extend(std::iter::repeat(b'a').take(dl as usize));
+                w.extend([0u8; 4]);
+                variants.push(refix(w));
+            }
+            // a name that is not UTF-8
+            let mut v = instr.clone();
+            v[42] = 0xff;
+            variants.push(refix(v));
+        }
+        for v in variants {
+            let sv = s.fresh("s");
+            s.run(&format!("vm.server {} users=u:{}", sv, uuid));
+            let time = crate::stream::now_secs() as i64 + rng.range(0, 40) as i64 - 20;
+            let head = crate::c03::spec(s, cr, &format!("craft.vm.req uuid={} time={} rand={} nonce={} header={}", uuid, time, hex(&rng.bytes(4)), hex(&rng.bytes(8)), if v.is_empty() { "-".to_owned() } else { hex(&v) }));
+            let Some(wire) = unhex(&head) else {
+                s.oracle_fail("craft", "spec builder unavailable");
+                return;
+            };
+            let d = feed_all(s, &sv, &[wire], true);
+            if d.panic {
+                s.oracle_fail("panic:vmess-server:header", &format!("an authentic request header whose instruction is malformed ({} bytes) made the decoder panic", v.len()));
+            }
+        }
+        s.mark_nontrivial();
+    }
+}
+
 pub fn generate(s: &mut Session, tier: &str, rng: &mut Rng) {
     let thorough = tier == "thorough";
     let mut targets = vec![];
@@ -369,10 +458,12 @@ pub fn generate(s: &mut Session, tier: &str, rng: &mut Rng) {
         }
     }
     s.mark_nontrivial();
+    crate::c13::handshake_early_close(s, thorough);
     match Crafter::new() {
         Some(mut cr) => {
             udp_cases(s, &mut cr, rng, thorough);
             vmess_forged_sizes(s, &mut cr, rng, thorough);
+            vmess_malformed_headers(s, &mut cr, rng, thorough);
         }
         None => {
             s.begin_case("no-driver");
